@@ -13,9 +13,10 @@ NAMES = ["normal", "uniform", "choice", "random", "randint"]
 
 
 class Draws:
-    def __init__(self, script=None, policy=None):
+    def __init__(self, script=None, policy=None, lenient=False):
         self.script = list(script) if script is not None else None
         self.policy = policy
+        self.lenient = lenient        # replay mode: when the script runs out or asks for another primitive, the real generator takes over
         self.log = []
         self._orig = {}
 
@@ -31,9 +32,15 @@ class Draws:
 
     def _next(self, name):
         if not self.script:
+            if self.lenient:
+                self.script = None
+                return None
             raise RuntimeError("draw script exhausted at %s" % name)
         kind, val = self.script.pop(0)
         if kind != name:
+            if self.lenient:
+                self.script = None
+                return None
             raise RuntimeError("draw script expected %s, library asked for %s" % (kind, name))
         return val
 
@@ -52,8 +59,8 @@ class Draws:
                 entry["p"] = plist
                 entry["items"] = seq
                 forced = rec.policy(name, None, len(seq)) if rec.policy is not None else None
-                if rec.script is not None:
-                    idx = rec._next(name)
+                idx = rec._next(name) if rec.script is not None else None
+                if idx is not None:
                     res = seq[idx]
                 elif forced is not None:
                     idx = int(forced)
@@ -68,8 +75,9 @@ class Draws:
                 return res
             entry["args"] = [x for x in a] + [k[x] for x in sorted(k)]
             forced = rec.policy(name, entry["args"], None) if rec.policy is not None else None
-            if rec.script is not None:
-                res = rec._next(name)
+            res = rec._next(name) if rec.script is not None else None
+            if res is not None:
+                pass
             elif forced is not None:
                 res = forced
             else:
